@@ -13,6 +13,9 @@ claimed = {
  "C01": ("model_checking", "Every order of visible operations (storage writes, plugin calls, API calls) of the real engine, run in a testing/synctest bubble, is enumerated for families of plan shapes (no checks with every failing position; every subset of the five check groups at plan or block level with 0/1 failing group; hand-picked sharp scenarios) within a deviation bound; each plugin invocation is checked against the events that precede it (sequence order, block order, pre-check gating, post/deferred ordering).", "§5 C01", MC_NOTE, MC_TECH),
  "C02": ("model_checking", "Exhaustive exploration, on the real engine inside a testing/synctest bubble, of every order of visible operations of a grid of block/sequence/concurrency scenarios (incl. two plans on one Workstream) within a deviation bound (quick) or over the whole state space with state-key pruning (thorough); a state invariant counts the sequences with a plugin call in flight per block and per plan.", "§5 C02", MC_NOTE, MC_TECH),
  "C03": ("model_checking", "Every order of visible operations for the grid of failing-sequence placements x tolerance x concurrency (plus check-group and sharp scenarios) within a deviation bound; state predicates decide which sequences had ended when the tolerance was exceeded and that no unstarted sequence starts afterwards; the final stored plan is checked for 'Failed exactly when', nothing invoked after a failed block, plan Failed; a hang (nothing enabled, no timer, Wait not returned) is detected structurally.", "§5 C03", MC_NOTE, MC_TECH),
+ "C04": ("model_checking", "A driver thread sits in Workstream.Wait; the storage read Wait performs is gated, so the state in which the waiter has been released is explicit. There the plan is read from the real vault and must be terminal, with nothing Running, no plugin call in flight, the cross-object consistency rules of the statement and an admissible reason; afterwards every remaining operation and two more timer ticks are executed and the plan must neither be invoked nor change. All orders of visible operations (and ticks) within the deviation bound for families F-seq, F-chk, F-cont (continuous check in flight when the plan ends by every route), F-sharp and two plans on one Workstream.", "§5 C04", MC_NOTE, MC_TECH),
+ "C06": ("model_checking", "Every subset of the five check groups at plan or block level with 0/1 failing group (and both levels with two actions per group), sharp and continuous-check scenarios; all orders of visible operations within the deviation bound; each plugin invocation is checked against the bypass / pre-check / initial continuous-check outcomes that precede it, and the final stored plan against the gating rules (bypassed scope Completed and silent, failed bypass alone never fails, failed pre-check or initial continuous run => no sequence action and scope Failed).", "§5 C06", MC_NOTE, MC_TECH),
+ "C07": ("model_checking", "Continuous checks failing at their k-th run at plan, block or both levels, with TICK (let the next timer fire) as an explorer action so that every position of the failing run relative to sequence boundaries is reached, incl. 'slow plugin' twins where time passes by default while an action executes; passing continuous checks with every other failure route and deferred checks present; a state predicate watches that the check thread never sits idle for a whole Delay while a sequence action executes; end-state predicates: a failed run fails the scope (ContCheck reason at plan level), deferred checks exactly once for entered scopes and never for bypassed ones, a deferred failure fails the scope.", "§5 C07", MC_NOTE, MC_TECH),
 }
 
 checks = []
